@@ -15,6 +15,7 @@ type Env struct {
 	lc   *loopCtx // active loop (for $pos, $rangeindex)
 	old  *State   // state used for old(...)
 	spec bool     // evaluating a spec-file expression (no Go values)
+	defs map[string]Expr // contract-level definitions (macros)
 	freshBase *Term // allocation counter at the start of the call whose contract is evaluated
 }
 
@@ -22,6 +23,9 @@ type vNil struct{}
 
 func (ex *Exec) contractEnv(st *State, lc *loopCtx) *Env {
 	env := &Env{vars: map[string]Value{}, lc: lc, old: st.entry}
+	if ex.cur != nil && ex.cur.contract != nil {
+		env.defs = ex.cur.contract.Defines
+	}
 	for k, v := range st.paramVals {
 		env.vars[k] = v
 	}
@@ -155,7 +159,7 @@ func (ex *Exec) evalIn(st *State, e Expr, env *Env, cl *Clause) Value {
 		}
 		return Ite(c, at, bt)
 	case *EQuant:
-		inner := &Env{vars: map[string]Value{}, fr: env.fr, lc: env.lc, old: env.old, spec: env.spec, freshBase: env.freshBase}
+		inner := &Env{vars: map[string]Value{}, fr: env.fr, lc: env.lc, old: env.old, spec: env.spec, freshBase: env.freshBase, defs: env.defs}
 		for k, v := range env.vars {
 			inner.vars[k] = v
 		}
@@ -281,6 +285,9 @@ func (ex *Exec) evalIdent(st *State, name string, env *Env, cl *Clause) Value {
 	}
 	if name == "nil" {
 		return vNil{}
+	}
+	if d, ok := env.defs[name]; ok {
+		return ex.evalIn(st, d, env, cl)
 	}
 	if s, ok := ex.Spec.Consts[name]; ok {
 		return Var(name, s)
@@ -638,6 +645,12 @@ func (ex *Exec) evalCall(st *State, c *ECall, env *Env, cl *Clause) Value {
 					return a.Val
 				}
 			}
+			if pt, ok := t.Underlying().(*types.Pointer); ok {
+				// no alternative of that type: an unconstrained dummy pointee (the clause must guard on dyntype)
+				obj := ex.newObject("unbox.dummy", pt.Elem(), false)
+				st.mem[obj] = ex.symbolicValue(st, pt.Elem(), ex.fresh("unbox.dummy", SInt).Name, 1)
+				return &VPtr{Nil: ex.fresh("unbox.nil", SBool), Obj: obj, T: pt.Elem()}
+			}
 			return ex.unboxSymbolic(st, t, iv.Pay)
 		}
 	case "ite":
@@ -784,17 +797,17 @@ func (ex *Exec) LoadSpec() error {
 			t := ex.evalBool(dummy, ax.E, env, cl)
 			ax.term = t
 			if !ax.IsLemma {
-				ex.addAxiom(ax.Label, t, false)
+				ex.addAxiom(ax.Label, t, false, ax.Triggers)
 			}
 		}
 	}()
 	return err
 }
 
-func (ex *Exec) addAxiom(label string, t *Term, lemma bool) {
+func (ex *Exec) addAxiom(label string, t *Term, lemma bool, trig []string) {
 	syms := map[string]SymSig{}
 	t.Symbols(syms)
-	ex.Prelude.Axioms = append(ex.Prelude.Axioms, &AxiomT{Label: label, T: t, syms: syms, Lemma: lemma})
+	ex.Prelude.Axioms = append(ex.Prelude.Axioms, &AxiomT{Label: label, T: t, syms: syms, Lemma: lemma, Trig: trig})
 }
 
 func (ex *Exec) newState() *State {
